@@ -21,6 +21,7 @@ import (
 	"strings"
 	"sync"
 	"sync/atomic"
+	"syscall"
 	"testing"
 	"time"
 )
@@ -157,8 +158,10 @@ func (c *Ctx) Touch() { c.progress.Add(1) }
 // kektordb frames, or still running inside kektordb code); otherwise it is inconclusive.
 func (c *Ctx) watchdog(stop chan struct{}) {
 	stall := time.Duration(envInt("VERIF_STALL_S", 120)) * time.Second
+	giveUp := time.Duration(envInt("VERIF_GIVEUP_S", 1800)) * time.Second
 	last := c.progress.Load()
 	lastChange := time.Now()
+	cpuAtChange := processCPU()
 	tick := time.NewTicker(time.Second)
 	defer tick.Stop()
 	for {
@@ -168,57 +171,98 @@ func (c *Ctx) watchdog(stop chan struct{}) {
 		case <-tick.C:
 		}
 		if p := c.progress.Load(); p != last {
-			last, lastChange = p, time.Now()
+			last, lastChange, cpuAtChange = p, time.Now(), processCPU()
 			continue
 		}
-		if time.Since(lastChange) < stall {
+		idle := time.Since(lastChange)
+		if idle < stall {
 			continue
 		}
+		// The machine may simply be overloaded: wall-clock alone never decides. A deadlock
+		// needs blocked kektordb goroutines and nothing runnable; a spin needs the process
+		// to have burnt CPU for (almost) the whole stall window without progress.
 		dump := DumpGoroutines()
 		class, frames := ClassifyDump(dump)
+		cpu := processCPU() - cpuAtChange
+		verdict := ""
+		switch {
+		case strings.HasPrefix(class, "deadlock"):
+			verdict = class
+		case strings.HasPrefix(class, "spin") && cpu >= stall*8/10:
+			verdict = fmt.Sprintf("%s; process used %v CPU without progress", class, cpu.Round(time.Second))
+		}
+		if verdict == "" && idle < giveUp {
+			continue // starved or slow: keep waiting
+		}
 		cur, _ := c.curCase.Load().(string)
 		grp, idx := cur, 0
 		if i := strings.LastIndex(cur, "/"); i > 0 {
 			grp = cur[:i]
 			idx, _ = strconv.Atoi(cur[i+1:])
 		}
-		if class != "" {
-			c.Violation(grp, idx, fmt.Sprintf("no progress for %v: %s (%s)", stall, class, strings.Join(frames, " | ")), nil,
+		if verdict != "" {
+			c.Violation(grp, idx, fmt.Sprintf("no progress for %v: %s (%s)", idle.Round(time.Second), verdict, strings.Join(frames, " | ")), nil,
 				map[string]any{"goroutine_dump": strings.Split(dump, "\n")})
 		} else {
-			c.Inconclusive(fmt.Sprintf("no progress for %v in case %s and no kektordb frame is blocked or running", stall, cur))
+			c.Inconclusive(fmt.Sprintf("no progress for %v in case %s without a deadlock or spin witness (cpu used %v)", idle.Round(time.Second), cur, cpu.Round(time.Second)))
 		}
 		c.writeResult()
 		os.Exit(3)
 	}
 }
 
+func processCPU() time.Duration {
+	var ru syscall.Rusage
+	if syscall.Getrusage(syscall.RUSAGE_SELF, &ru) != nil {
+		return 0
+	}
+	return time.Duration(ru.Utime.Nano() + ru.Stime.Nano())
+}
+
 // ClassifyDump looks for a deadlock / non-termination witness in a goroutine dump.
+// "deadlock…": at least one goroutine is parked on a lock/channel inside kektordb code and no
+// goroutine is running or runnable inside kektordb or harness code; "spin…": some goroutine is
+// running/runnable inside kektordb code (only a witness together with CPU consumption).
 func ClassifyDump(dump string) (string, []string) {
 	var blocked, running []string
+	anyRunnable := false
 	for _, g := range strings.Split(dump, "\n\n") {
 		lines := strings.Split(g, "\n")
 		if len(lines) == 0 || !strings.HasPrefix(lines[0], "goroutine ") {
 			continue
 		}
 		head := lines[0]
+		if strings.Contains(g, "vkit.(*Ctx).watchdog") || strings.Contains(g, "vkit.DumpGoroutines") {
+			continue
+		}
 		frame := ""
+		harness := false
 		for _, l := range lines[1:] {
-			if strings.Contains(l, "github.com/sanonone/kektordb/") && !strings.Contains(l, "/zzverif/") && !strings.Contains(l, "zz_verif_") && !strings.HasPrefix(l, "\t") {
+			if strings.HasPrefix(l, "\t") {
+				continue
+			}
+			if strings.Contains(l, "/zzverif/") || strings.Contains(l, "zz_verif_") || strings.Contains(l, ".TestVerif") {
+				harness = true
+				continue
+			}
+			if frame == "" && strings.Contains(l, "github.com/sanonone/kektordb/") {
 				frame = strings.TrimSpace(l)
-				if i := strings.Index(frame, "("); i > 0 {
+				if i := strings.LastIndex(frame, "("); i > 0 { // cut the argument list only
 					frame = frame[:i]
 				}
-				break
 			}
+		}
+		runnable := strings.Contains(head, "[running") || strings.Contains(head, "[runnable") || strings.Contains(head, "[syscall") || strings.Contains(head, "[sleep") || strings.Contains(head, "[IO wait")
+		if runnable && (harness || frame != "") {
+			anyRunnable = true
 		}
 		if frame == "" {
 			continue
 		}
 		switch {
 		case strings.Contains(head, "[sync.") || strings.Contains(head, "[semacquire") || strings.Contains(head, "[chan send") || strings.Contains(head, "[chan receive") || strings.Contains(head, "[select"):
-			// background loops of the product legitimately sit in select/chan receive
-			if strings.Contains(frame, "backgroundTasks") || strings.Contains(frame, ".run") || strings.Contains(frame, "Compactor") || strings.Contains(frame, "EventBus") {
+			// background loops of the product legitimately sit in select / chan receive
+			if strings.Contains(frame, "backgroundTasks") || strings.Contains(frame, ".run") || strings.Contains(frame, "Compactor") || strings.Contains(frame, "EventBus") || strings.Contains(frame, "Loop") {
 				continue
 			}
 			blocked = append(blocked, frame+" "+head[strings.Index(head, "["):])
@@ -226,11 +270,11 @@ func ClassifyDump(dump string) (string, []string) {
 			running = append(running, frame)
 		}
 	}
-	if len(blocked) > 0 {
-		return "goroutines blocked inside kektordb (deadlock witness)", blocked
+	if len(blocked) > 0 && !anyRunnable {
+		return "deadlock: goroutines blocked inside kektordb and nothing runnable", blocked
 	}
 	if len(running) > 0 {
-		return "goroutine still executing inside kektordb (non-termination witness)", running
+		return "spin: goroutine executing inside kektordb", running
 	}
 	return "", nil
 }
@@ -548,8 +592,8 @@ func (r *Rand) Range(lo, hi int) int { // inclusive
 	return lo + r.IntN(hi-lo+1)
 }
 func (r *Rand) Chance(p float64) bool { return r.Float64() < p }
-func Pick[T any](r *Rand, xs []T) T    { return xs[r.IntN(len(xs))] }
-func (r *Rand) F32() float32           { return float32(r.Float64()*2 - 1) }
+func Pick[T any](r *Rand, xs []T) T   { return xs[r.IntN(len(xs))] }
+func (r *Rand) F32() float32          { return float32(r.Float64()*2 - 1) }
 func (r *Rand) Bytes(n int) []byte {
 	b := make([]byte, n)
 	for i := range b {
